@@ -5,6 +5,7 @@ package c18
 import (
 	"context"
 	"fmt"
+	"sync"
 	"time"
 
 	eth2api "github.com/attestantio/go-eth2-client/api"
@@ -100,6 +101,7 @@ type ddKey struct {
 }
 
 type dutydbC struct {
+	mu   sync.Mutex
 	db   *dutydb.MemDB
 	keys map[string]ddKey
 	vapi *validatorapi.Component
@@ -153,14 +155,18 @@ func (c *dutydbC) Put(r *run, _, w string, _ func(string, string, any)) error {
 	err := c.db.Store(r.ctx, k.duty, r.holder(w).val.(core.UnsignedDataSet))
 	if err == nil && !k.put && r.pristine(w) {
 		k.put = true
+		c.mu.Lock()
 		c.keys[w] = k
+		c.mu.Unlock()
 	}
 	return err
 }
 
 func (c *dutydbC) Get(r *run, p, of string, arg int) (any, string, bool, error) {
+	c.mu.Lock()
 	k, ok := c.keys[of]
-	if !ok || !k.put {
+	c.mu.Unlock()
+	if !ok || (!k.put && !r.force) {
 		return nil, "", false, nil
 	}
 	ctx, cancel := context.WithTimeout(r.ctx, 10*time.Second)
@@ -268,6 +274,7 @@ type asW struct {
 }
 
 type aggsigC struct {
+	mu sync.Mutex
 	db core.AggSigDB
 	w  map[string]asW
 }
@@ -302,14 +309,18 @@ func (c *aggsigC) Put(r *run, _, w string, _ func(string, string, any)) error {
 	err := c.db.Store(ctx, k.duty, r.holder(w).val.(core.SignedDataSet))
 	if err == nil && !k.put && r.pristine(w) {
 		k.put = true
+		c.mu.Lock()
 		c.w[w] = k
+		c.mu.Unlock()
 	}
 	return err
 }
 
 func (c *aggsigC) Get(r *run, _, of string, _ int) (any, string, bool, error) {
+	c.mu.Lock()
 	k, ok := c.w[of]
-	if !ok || !k.put {
+	c.mu.Unlock()
+	if !ok || (!k.put && !r.force) {
 		return nil, "", false, nil
 	}
 	ctx, cancel := context.WithTimeout(r.ctx, 10*time.Second)
